@@ -43,8 +43,8 @@ def probe_S(age, p):
     return Fraction(1, 2 ** fl) if fl >= 0 else Fraction(2 ** (-fl))
 
 
-EXTRA = {"r": ["r0", "r1"], "g": ["g0", "g1", "g2"], "q": ["q0"]}
-NAMES = {"t": "time", "r": "region", "g": "good", "q": "quality"}
+EXTRA = {"r": ["r0", "r1"], "g": ["g0", "g1", "g2"], "q": ["q0"], "h": ["h0", "h1"]}
+NAMES = {"t": "time", "r": "region", "g": "good", "q": "quality", "h": "height"}
 
 
 def mk_dims(grid, extra):
